@@ -210,11 +210,25 @@ class FuncInfo:
             if p in counts:
                 continue
             d = self.default_of(p)
-            if d is not None and dotted(d):
+            if d is not None and dotted(d) and self._names_a_callable(dotted(d)):
                 out[p] = d
         self._aliases = out
         self._assign_counts = counts
         return out
+
+    def _names_a_callable(self, d):
+        """default-argument aliasing (``now=monotonic``) only for names that denote a
+        function/module member, never for data constants (``max_frames=DEFAULT_MAX_FRAMES``)"""
+        mi = self.module
+        head = d.split('.')[0]
+        if '.' in d:
+            return head in mi.imports
+        if head in mi.imports:
+            return True
+        if getattr(mi, 'model', None) is not None and ('%s:%s' % (mi.name, head)) in mi.model.funcs:
+            return True
+        v = mi.assigns.get(head)
+        return v is not None and dotted(v) is not None and '.' in dotted(v)
 
     def assigned_names(self):
         self.aliases
